@@ -75,9 +75,10 @@ static void zmMul(word c[], const word a[], const word b[],
 
 static size_t zmMul_deep(size_t n)
 {
-	return utilMax(2,
-		zzMul_deep(n, n),
-		zzRed_deep(n));
+	return O_OF_W(2 * n) +
+		utilMax(2,
+			zzMul_deep(n, n),
+			zzRed_deep(n));
 }
 
 static void zmSqr(word b[], const word a[], const qr_o* r, void* stack)
@@ -93,9 +94,10 @@ static void zmSqr(word b[], const word a[], const qr_o* r, void* stack)
 
 static size_t zmSqr_deep(size_t n)
 {
-	return utilMax(2,
-		zzSqr_deep(n),
-		zzRed_deep(n));
+	return O_OF_W(2 * n) +
+		utilMax(2,
+			zzSqr_deep(n),
+			zzRed_deep(n));
 }
 
 static void zmInv(word b[], const word a[], const qr_o* r, void* stack)
@@ -199,9 +201,10 @@ static void zmMulCrand(word c[], const word a[], const word b[],
 
 static size_t zmMulCrand_deep(size_t n)
 {
-	return utilMax(2,
-		zzMul_deep(n, n),
-		zzRedCrand_deep(n));
+	return O_OF_W(2 * n) +
+		utilMax(2,
+			zzMul_deep(n, n),
+			zzRedCrand_deep(n));
 }
 
 static void zmSqrCrand(word b[], const word a[], const qr_o* r, void* stack)
@@ -217,9 +220,10 @@ static void zmSqrCrand(word b[], const word a[], const qr_o* r, void* stack)
 
 static size_t zmSqrCrand_deep(size_t n)
 {
-	return utilMax(2,
-		zzSqr_deep(n),
-		zzRedCrand_deep(n));
+	return O_OF_W(2 * n) +
+		utilMax(2,
+			zzSqr_deep(n),
+			zzRedCrand_deep(n));
 }
 
 void zmCreateCrand(qr_o* r, const octet mod[], size_t no, void* stack)
@@ -300,9 +304,10 @@ static void zmMulBarr(word c[], const word a[], const word b[],
 
 static size_t zmMulBarr_deep(size_t n)
 {
-	return utilMax(2,
-		zzMul_deep(n, n),
-		zzRedBarr_deep(n));
+	return O_OF_W(2 * n) +
+		utilMax(2,
+			zzMul_deep(n, n),
+			zzRedBarr_deep(n));
 }
 
 static void zmSqrBarr(word b[], const word a[], const qr_o* r, void* stack)
@@ -318,9 +323,10 @@ static void zmSqrBarr(word b[], const word a[], const qr_o* r, void* stack)
 
 static size_t zmSqrBarr_deep(size_t n)
 {
-	return utilMax(2,
-		zzSqr_deep(n),
-		zzRedBarr_deep(n));
+	return O_OF_W(2 * n) +
+		utilMax(2,
+			zzSqr_deep(n),
+			zzRedBarr_deep(n));
 }
 
 void zmCreateBarr(qr_o* r, const octet mod[], size_t no, void* stack)
@@ -449,9 +455,10 @@ static void zmMulMont(word c[], const word a[], const word b[],
 
 static size_t zmMulMont_deep(size_t n)
 {
-	return utilMax(2,
-		zzMul_deep(n, n),
-		zzRedMont_deep(n));
+	return O_OF_W(2 * n) +
+		utilMax(2,
+			zzMul_deep(n, n),
+			zzRedMont_deep(n));
 }
 
 static void zmSqrMont(word b[], const word a[], const qr_o* r, void* stack)
@@ -467,9 +474,10 @@ static void zmSqrMont(word b[], const word a[], const qr_o* r, void* stack)
 
 static size_t zmSqrMont_deep(size_t n)
 {
-	return utilMax(2,
-		zzSqr_deep(n),
-		zzRedMont_deep(n));
+	return O_OF_W(2 * n) +
+		utilMax(2,
+			zzSqr_deep(n),
+			zzRedMont_deep(n));
 }
 
 static void zmInvMont(word b[], const word a[], const qr_o* r, void* stack)
@@ -507,9 +515,10 @@ static void zmDivMont(word b[], const word divident[], const word a[],
 
 static size_t zmDivMont_deep(size_t n)
 {
-	return utilMax(2,
-		zmInvMont_deep(n),
-		zmMulMont_deep(n));
+	return O_OF_W(n) +
+		utilMax(2,
+			zmInvMont_deep(n),
+			zmMulMont_deep(n));
 }
 
 void zmCreateMont(qr_o* r, const octet mod[], size_t no, void* stack)
@@ -671,9 +680,10 @@ static void zmMulMont2(word c[], const word a[], const word b[],
 
 static size_t zmMulMont2_deep(size_t n)
 {
-	return utilMax(2,
-		zzMul_deep(n, n),
-		zzRedMont_deep(n));
+	return O_OF_W(2 * n) +
+		utilMax(2,
+			zzMul_deep(n, n),
+			zzRedMont_deep(n));
 }
 
 static void zmSqrMont2(word b[], const word a[], const qr_o* r, void* stack)
@@ -698,9 +708,10 @@ static void zmSqrMont2(word b[], const word a[], const qr_o* r, void* stack)
 
 static size_t zmSqrMont2_deep(size_t n)
 {
-	return utilMax(2,
-		zzSqr_deep(n),
-		zzRedMont_deep(n));
+	return O_OF_W(2 * n) +
+		utilMax(2,
+			zzSqr_deep(n),
+			zzRedMont_deep(n));
 }
 
 static void zmInvMont2(word b[], const word a[], const qr_o* r, void* stack)
@@ -740,9 +751,10 @@ static void zmDivMont2(word b[], const word divident[], const word a[],
 
 static size_t zmDivMont2_deep(size_t n)
 {
-	return utilMax(2,
-		zmInvMont2_deep(n),
-		zmMulMont2_deep(n));
+	return O_OF_W(n) +
+		utilMax(2,
+			zmInvMont2_deep(n),
+			zmMulMont2_deep(n));
 }
 
 void zmMontCreate(qr_o* r, const octet mod[], size_t no, size_t l, void* stack)
